@@ -12,10 +12,10 @@ import (
 
 // C15 — parent and child (extension) stores stay consistent.
 
-func c15Cfg(extended bool) kit.WorldCfg {
+func c15Cfg(extended, uniqueExtra bool) kit.WorldCfg {
 	return kit.WorldCfg{
 		Stores:   []kit.StoreCfg{{Name: "emps", UniqueName: true, RolesIndex: true}},
-		Children: []kit.ChildCfg{{Name: "mgrs", Parent: "emps", Extended: extended}},
+		Children: []kit.ChildCfg{{Name: "mgrs", Parent: "emps", Extended: extended, UniqueExtra: uniqueExtra}},
 	}
 }
 
@@ -29,7 +29,8 @@ var c15Universe = kit.EntUniverse{
 }
 
 func genC15(t *rapid.T) kit.History {
-	cfg := c15Cfg(rapid.IntRange(0, 2).Draw(t, "extended") == 0)
+	// half of the child stores have an index of their own (nullable unique index over the child-only field)
+	cfg := c15Cfg(rapid.IntRange(0, 2).Draw(t, "extended") == 0, rapid.Bool().Draw(t, "uniqueExtra"))
 	return kit.GenHistory(t, cfg, 20, 3, false, 60, func(t *rapid.T, l string, m *kit.Model) kit.Op {
 		store := "emps"
 		if rapid.Bool().Draw(t, l+"_viaChild") {
@@ -45,7 +46,7 @@ func genC15(t *rapid.T) kit.History {
 func runC15(h kit.History) kit.Result {
 	res := kit.Result{Sub: len(h.Txs)}
 	extended := h.Cfg.Children[0].Extended
-	res.Classes = append(res.Classes, fmt.Sprintf("extended:%v", extended))
+	res.Classes = append(res.Classes, fmt.Sprintf("extended:%v", extended), fmt.Sprintf("child-index:%v", h.Cfg.Children[0].UniqueExtra))
 	st, err := kit.RunHistory(h, func(w *kit.World, m *kit.Model, i int, tx kit.TxSpec, out kit.TxOutcome) error {
 		if !out.Committed {
 			return nil
